@@ -384,10 +384,11 @@ def run(tier, args):
         p = ln.split()
         if not p:
             continue
-        known.add(p[0])
         api = int(p[-1].split("=")[1])
         if api not in [int(x) for x in p[1:-1]]:
-            lookup_miss.append(p[0])
+            lookup_miss.append(p[0])    # a name the public lookup does not find is unknown to this check (no fallback)
+        else:
+            known.add(p[0])
     if len(known) < 100:
         raise common.HarnessError("driver lists only %d instruction names" % len(known))
 
@@ -612,7 +613,7 @@ def run(tier, args):
     if notes_alias:
         chk.note("LLVM rejects the text but reads AsmJit's word under another mnemonic (template ok, no verdict): " + "; ".join(notes_alias[:8]))
     if lookup_miss:
-        chk.note("InstAPI::string_to_inst_id(kAArch64) does not find %d names that inst_id_to_string() produces (driver falls back to its own table): %s ..." %
+        chk.note("InstAPI::string_to_inst_id(kAArch64) does not find %d names that inst_id_to_string() produces (their records are not exercised): %s ..." %
                  (len(lookup_miss), ", ".join(lookup_miss[:12])))
 
     chk.coverage.update({
